@@ -137,4 +137,9 @@ def units(ctx):
     us += [_cu3(c, world_setup=_c3.setup)
            for c in _c3.predicate_contracts() + _c3.wrapper_contracts()
            if 'C15' in c.serves]
+    # unary operators on literals are operator CALLS (no folding at parse
+    # time that would bypass the overloads' argument types)
+    from contracts import lexer as _lx
+    us += [_cu3(c, world_setup=_lx.setup)
+           for c in _lx.contracts() if 'C15' in c.serves]
     return us
